@@ -14,7 +14,7 @@
    The installed pandas is > "1.4.0" (string comparison in the code), so the `concat` branch of
    add_constraint is the one modelled; the harness asserts that on every run. *)
 From Coq Require Import List Bool Arith ZArith QArith Qabs String DecimalString.
-From ACN Require Import Base.Num Base.ListX Model.Current.
+From ACN Require Import Base.Num Base.ListX Gen.C12Shape Model.Current.
 Import ListNotations.
 Open Scope nat_scope.
 
@@ -22,12 +22,12 @@ Definition nmem (x : string) (l : list string) : bool := existsb (String.eqb x) 
 
 (* "_const_{0}".format(n) *)
 Definition default_name (n : nat) : string :=
-  String.append "_const_"%string (NilZero.string_of_uint (Nat.to_uint n)).
+  String.append default_name_prefix (NilZero.string_of_uint (Nat.to_uint n)).
 
 (* the name under which add_constraint files a new constraint *)
 Definition resolve_name (existing : list string) (name : option string) : string :=
   let nm := match name with None => default_name (List.length existing) | Some x => x end in
-  if nmem nm existing then String.append nm "_v2"%string else nm.
+  if nmem nm existing then String.append nm rename_suffix else nm.
 
 (* list.index(x) for x in the list / np.delete(a, i, axis=0) / list.remove(x) *)
 Fixpoint index_of (x : string) (l : list string) : nat :=
@@ -110,7 +110,7 @@ Section Net.
   (* ---------------- register_evse ---------------- *)
   Definition register_evse (s : station) (v ph : Q) (n : net) : option string * net :=
     match cmat n with
-    | Some _ => (Some "EVSERegistrationError"%string, n)
+    | Some _ => (Some exc_register, n)
     | None =>
         (None, mkNet (if smem s (stations n) then stations n else stations n ++ [s])
                      (volts n ++ [v]) (angles n ++ [ph]) (cmat n) (mags n) (cnames n))
@@ -120,7 +120,7 @@ Section Net.
   Definition add_constraint (c : current A) (limit : Q) (name : option string) (n : net)
     : option string * net :=
     let nm := resolve_name (cnames n) name in
-    if existsb (fun k => negb (smem k (stations n))) (keys c) then (Some "KeyError"%string, n)
+    if existsb (fun k => negb (smem k (stations n))) (keys c) then (Some exc_unknown_station, n)
     else
       let mags' := mags n ++ [limit] in
       let fr := constraints_as_df n in
@@ -134,7 +134,7 @@ Section Net.
 
   (* ---------------- remove_constraint ---------------- *)
   Definition remove_constraint (name : string) (n : net) : option string * net :=
-    if negb (nmem name (cnames n)) then (Some "KeyError"%string, n)
+    if negb (nmem name (cnames n)) then (Some exc_remove_missing, n)
     else
       let i := index_of name (cnames n) in
       (None, mkNet (stations n) (volts n) (angles n)
@@ -145,7 +145,7 @@ Section Net.
   Definition update_constraint (name : string) (c : current A) (limit : Q)
              (new_name : option string) (n : net) : option string * net :=
     let nn := match new_name with None => name | Some x => x end in
-    if negb (nmem name (cnames n)) then (Some "KeyError"%string, n)
+    if negb (nmem name (cnames n)) then (Some exc_update_missing, n)
     else
       let n1 := snd (remove_constraint name n) in
       add_constraint c limit (Some nn) n1.
@@ -296,12 +296,12 @@ Section Net.
   Definition spec_err (o : op) (g : ghost) : option string :=
     let names := map l_name (g_live g) in
     match o with
-    | ORegister _ _ _ => if g_ever g then Some "EVSERegistrationError"%string else None
-    | OAdd c _ _ => if known (g_stations g) c then None else Some "KeyError"%string
-    | ORemove nm => if nmem nm names then None else Some "KeyError"%string
+    | ORegister _ _ _ => if g_ever g then Some exc_register else None
+    | OAdd c _ _ => if known (g_stations g) c then None else Some exc_unknown_station
+    | ORemove nm => if nmem nm names then None else Some exc_remove_missing
     | OUpdate nm c _ _ =>
-        if nmem nm names then (if known (g_stations g) c then None else Some "KeyError"%string)
-        else Some "KeyError"%string
+        if nmem nm names then (if known (g_stations g) c then None else Some exc_unknown_station)
+        else Some exc_update_missing
     end.
 
   (* two Currents that list the same stations with the same values, in any order *)
@@ -433,5 +433,7 @@ Definition obs_eqb (a b : obs) : bool :=
   | _, _ => false
   end.
 
+(* the in-place mode recorded by the harness must be the one read from the class by tools/gen_c12.py *)
 Definition check_c12 (c : c12case) : bool :=
+  inplace_mode_eqb (k_mode c) repo_inplace_mode &&
   list_eqb obs_eqb (observe_all (k_mode c) (k_ops c) (net0 (A := Q))) (k_obs c).
